@@ -107,7 +107,7 @@ theorem sql_join_factory_sound (σ : Leaves) (st : Store) (t rhs : Rel) (pred : 
       common.subset rhs.columns = true ∧ common.subset t.columns = true := by
   unfold Rel.joinWith JoinOp.make at h
   simp only at h
-  obtain ⟨common, T, hT, _, okT, semT, colT, engT, c1, c2⟩ :=
+  obtain ⟨common, T, hT, _, okT, semT, colT, engT, c1, c2, _⟩ :=
     applyOp_pj_sound σ st defaultFuel ⟨⟨pred, [], none⟩, rhs, false⟩ t { backtrack := bt, transfer := tr }
       (raw_good σ t hwt htt hrt) (raw_good σ rhs hwr htr hrr) rfl heng
       (fun hr => by simp [JoinOp.resolved] at hr) res h
